@@ -6,7 +6,11 @@
    proof below.  The real producer is run under the simulator on call programs with faults and
    must agree with [replay] call by call (harness/c16.py).
    [wfb s = true]: s is a state the producer can be in between two calls (READY, IN_TRANSACTION,
-   ABORTABLE_ERROR carrying a topic/group authorization error, FATAL_ERROR). *)
+   ABORTABLE_ERROR carrying a topic/group authorization error, FATAL_ERROR).
+   [SendNW p] is send() whose delivery future is not awaited: the next call starts at once with the
+   batch still queued; [pending s] says such sends are outstanding.  The application awaits them
+   when the next commit / abort / context exit has returned or raised, or right before any other
+   call that is not a nowait send ([awaits_first s c]). *)
 From Coq Require Import ZArith List Bool.
 From Verif Require Import Imp TxnTable C16_TxnApi C16_proof.
 Import ListNotations.
@@ -17,10 +21,22 @@ Theorem c16_table_is_translated : forall s t,
 Proof. exact table_is_translated. Qed.
 Print Assumptions c16_table_is_translated.
 
+(* ... and that function is pinned to a hand-written table of the transition relation the protocol
+   needs (model: [spec_must] / [spec_may], from KIP-98, the Java client's isTransitionValid and the
+   order in which aiokafka's sender issues requests): every required transition is allowed — in
+   particular into ABORTABLE_ERROR from IN_TRANSACTION, COMMITTING_TRANSACTION and
+   ABORTING_TRANSACTION and into FATAL_ERROR from every other state — and nothing is allowed beyond
+   these and the catch-all into the two error states (7 x 7 entries). *)
+Theorem c16_table_meets_specification : forall s t,
+  (spec_must s t = true -> table s t = true) /\ (table s t = true -> spec_may s t = true).
+Proof. exact table_meets_spec. Qed.
+Print Assumptions c16_table_meets_specification.
+
 (* A call the documented protocol does not allow in the current state raises, changes nothing in
-   the producer and emits no request — whatever fault is pending. *)
+   the producer and emits no request — whatever fault is pending.  (With nowait sends outstanding
+   the application awaits them first; that case is part of c16_refines_spec.) *)
 Theorem c16_illegal_no_effect : forall s c f,
-  wfb s = true -> pallowed (abs (st s)) c = false ->
+  wfb s = true -> pallowed (abs (st s)) c = false -> pending s = false ->
   exists e, api s c f = (s, RRaise e, []).
 Proof. exact illegal_no_effect. Qed.
 Print Assumptions c16_illegal_no_effect.
@@ -28,14 +44,15 @@ Print Assumptions c16_illegal_no_effect.
 (* ... and an allowed call never fails with the out-of-order errors (IllegalOperation /
    AssertionError of the transition table). *)
 Theorem c16_legal_not_refused : forall s c f,
-  wfb s = true -> pallowed (abs (st s)) c = true -> is_order_error (api_res s c f) = false.
+  wfb s = true -> pallowed (abs (st s)) c = true -> awaits_first s c = false ->
+  is_order_error (api_res s c f) = false.
 Proof. exact legal_not_order_error. Qed.
 Print Assumptions c16_legal_not_refused.
 
 (* From a started producer, with no fault or only faults every handler retries (connection drops,
    COORDINATOR_LOAD_IN_PROGRESS, COORDINATOR_NOT_AVAILABLE, NOT_COORDINATOR): all calls of a program
    return normally  iff  the program is a prefix of
-   ( begin (send | send_offsets)* (commit | abort | context exit) )*. *)
+   ( begin (send | nowait send | send_offsets)* (commit | abort | context exit) )*. *)
 Theorem c16_accepts_protocol_order : forall cs s0,
   started = Some s0 ->
   forallb (fun cf => benign (snd cf)) cs = true ->
@@ -43,13 +60,21 @@ Theorem c16_accepts_protocol_order : forall cs s0,
 Proof. exact accepts_protocol_order. Qed.
 Print Assumptions c16_accepts_protocol_order.
 
-(* Abortable errors.  ABORTABLE_ERROR is entered only by TOPIC_AUTHORIZATION_FAILED on the
-   AddPartitionsToTxn of a send, or GROUP_AUTHORIZATION_FAILED on AddOffsetsToTxn / TxnOffsetCommit
-   of send_offsets_to_transaction ... *)
+(* ... and under the same faults, with no sequence gap at a partition leader, every delivery
+   future of a nowait send that is awaited during such a call has succeeded. *)
+Theorem c16_nowait_futures_succeed : forall s c f i,
+  wfb s = true -> inside_of s = Some i -> benign f = true -> dfa_next i c <> None ->
+  futs_ok (api_futs s c f) = true.
+Proof. exact nowait_futures_ok. Qed.
+Print Assumptions c16_nowait_futures_succeed.
+
+(* Abortable errors.  ABORTABLE_ERROR is entered only by TOPIC_AUTHORIZATION_FAILED (on the
+   AddPartitionsToTxn of a send, awaited or not), or GROUP_AUTHORIZATION_FAILED on AddOffsetsToTxn /
+   TxnOffsetCommit of send_offsets_to_transaction ... *)
 Theorem c16_abortable_cause : forall s c f,
   wfb s = true -> st s <> ABORTABLE -> st (api_st s c f) = ABORTABLE ->
-  (exists p, c = Send p /\ f = Some (I0, FErr E29)) \/
-  (c = SendOffsets /\ exists i, f = Some (i, FErr E30)).
+  (exists i, f = Some (i, FErr E29) /\ (pending s = true \/ exists p, c = Send p)) \/
+  (exists i, f = Some (i, FErr E30) /\ c = SendOffsets).
 Proof. exact abortable_cause. Qed.
 Print Assumptions c16_abortable_cause.
 
@@ -76,8 +101,10 @@ Print Assumptions c16_abortable_recovers.
    already registered with the coordinator are kept ... *)
 Theorem c16_abortable_keeps_registered : forall s c f,
   wfb s = true -> st s <> ABORTABLE -> st (api_st s c f) = ABORTABLE ->
-  p0 (api_st s c f) = p0 s /\ p1 (api_st s c f) = p1 s /\ (grp s = true -> grp (api_st s c f) = true) /\
-  is_error (api_res s c f) = true.
+  (p0 s = true -> p0 (api_st s c f) = true) /\ (p1 s = true -> p1 (api_st s c f) = true) /\
+  (grp s = true -> grp (api_st s c f) = true) /\
+  is_error (api_res s c f) = true /\
+  (pending s = false -> p0 (api_st s c f) = p0 s /\ p1 (api_st s c f) = p1 s).
 Proof. exact abortable_keeps. Qed.
 Print Assumptions c16_abortable_keeps_registered.
 
@@ -89,6 +116,25 @@ Theorem c16_abort_ends_at_coordinator : forall s,
   api_req s CtxExc None = (if is_empty_txn s then [] else [REndTxn false]).
 Proof. exact abort_sends_endtxn. Qed.
 Print Assumptions c16_abort_ends_at_coordinator.
+
+(* The abortable error can arrive while the transaction is being ended: nowait sends to a partition
+   the transaction does not have yet ([unregistered s] non-empty), then commit / abort / context exit
+   at once — the AddPartitionsToTxn is sent while the manager is COMMITTING / ABORTING.  When it is
+   refused with TOPIC_AUTHORIZATION_FAILED the call raises that error, the producer is in
+   ABORTABLE_ERROR (so c16_abortable_recovers applies: commit raises it, abort leads to READY and a
+   new transaction succeeds), what was registered is kept, the batches waiting for the partition are
+   failed with the error and never produced, and no EndTxn is sent. *)
+Theorem c16_abortable_while_ending : forall s c,
+  wfb s = true -> st s = IN_TXN -> is_end c = true -> is_none (unregistered s) = false ->
+  let f29 := Some (I0, FErr E29) in
+  st (api_st s c f29) = ABORTABLE /\ api_res s c f29 = RRaise (XCode E29) /\
+  werr (api_st s c f29) = Some (XCode E29) /\
+  api_req s c f29 = RAddPartitions (unregistered s)
+                    :: (if is_none (registered_nw s) then [] else [RProduce (registered_nw s)]) /\
+  fut_failed_for (unregistered s) (XCode E29) (api_futs s c f29) = true /\
+  p0 (api_st s c f29) = p0 s /\ p1 (api_st s c f29) = p1 s /\ grp (api_st s c f29) = grp s.
+Proof. exact ending_error. Qed.
+Print Assumptions c16_abortable_while_ending.
 
 (* Fatal errors are absorbing: from FATAL_ERROR every program leaves the state unchanged, emits
    no request, and every call fails — except the context exit with an exception, which lets the
@@ -102,10 +148,14 @@ Proof. exact fatal_absorbing_run. Qed.
 Print Assumptions c16_fatal_absorbing.
 
 (* The call during which the fatal error happens fails with the stored error (for a send this is
-   the pending send future), and the transaction's partitions and group are dropped. *)
+   the pending send future) — or, when the call first awaited outstanding nowait sends, one of those
+   futures failed with it and the call itself is refused — and the transaction's partitions and
+   group are dropped. *)
 Theorem c16_fatal_entry : forall s c f,
   wfb s = true -> st s <> FATAL -> st (api_st s c f) = FATAL ->
-  is_error (api_res s c f) = true /\ werr (api_st s c f) = exn_of (api_res s c f) /\
+  is_error (api_res s c f) = true /\
+  (werr (api_st s c f) = exn_of (api_res s c f) \/
+   (awaits_first s c = true /\ fut_is (werr (api_st s c f)) (api_futs s c f) = true)) /\
   is_empty_txn (api_st s c f) = true.
 Proof. exact fatal_entry. Qed.
 Print Assumptions c16_fatal_entry.
@@ -113,10 +163,13 @@ Print Assumptions c16_fatal_entry.
 (* Refinement: every program run of [api] from a well-formed state is a run of the independent
    7-state automaton of the documented protocol (each allowed call follows one of its documented
    event paths through UNINITIALIZED/READY/IN_TRANSACTION/COMMITTING/ABORTING/ABORTABLE_ERROR/
-   FATAL_ERROR with a fitting result; each call that is not allowed is refused without effect). *)
+   FATAL_ERROR with a fitting result — an abortable error may also arrive in COMMITTING / ABORTING;
+   each call that is not allowed is refused without effect; with nowait sends outstanding, their
+   abortable / fatal error may surface when they are awaited before a call). *)
 Theorem c16_refines_spec : forall cs s,
   wfb s = true ->
-  spec_run (abs (st s)) (observe s cs) (abs (st (snd (run s cs)))) /\ wfb (snd (run s cs)) = true.
+  spec_run (abs (st s)) (pending s) (observe s cs) (abs (st (snd (run s cs)))) /\
+  wfb (snd (run s cs)) = true.
 Proof. exact refines_spec. Qed.
 Print Assumptions c16_refines_spec.
 
@@ -151,10 +204,10 @@ Theorem c16_fatal_classes_refuted :
   ~ C16_fatal_classes_full /\
   wfb in_txn_p0 = true /\
   api in_txn_p0 (Send P0) (Some (I1, FErr E45)) =
-    (mkT IN_TXN true false false false None true false, RFutFail (XCode E45),
-     [RAddPartitions P0; RProduce P0]) /\
-  api (mkT IN_TXN true false false false None true false) Commit None =
-    (mkT READY false false false false None true false, ROk, [REndTxn true]).
+    (mkT IN_TXN true false false false None true false false false, RFutFail (XCode E45),
+     [RAddPartitions (one P0); RProduce (one P0)]) /\
+  api (mkT IN_TXN true false false false None true false false false) Commit None =
+    (mkT READY false false false false None true false false false, ROk, [REndTxn true]).
 Proof. split; [exact fatal_full_refuted | exact fatal_full_witness]. Qed.
 Print Assumptions c16_fatal_classes_refuted.
 
@@ -168,4 +221,13 @@ Example c16_run_example :
   map fst (fst (run s0 [(Begin, None); (Send P0, None); (SendOffsets, Some (I0, FErr E30));
                         (Commit, None); (Abort, None); (Begin, None); (Send P1, None); (Commit, None)]))
   = [ROk; ROk; RRaise (XCode E30); RRaise (XCode E30); ROk; ROk; ROk; ROk].
+Proof. eexists. split; vm_compute; reflexivity. Qed.
+
+(* the same error arriving while committing: begin . nowait send(p0) . commit with
+   TOPIC_AUTHORIZATION_FAILED on the AddPartitionsToTxn . abort . begin . send(p0) . commit *)
+Example c16_run_example_nowait :
+  exists s0, started = Some s0 /\
+  map fst (fst (run s0 [(Begin, None); (SendNW P0, None); (Commit, Some (I0, FErr E29));
+                        (Commit, None); (Abort, None); (Begin, None); (Send P0, None); (Commit, None)]))
+  = [ROk; ROk; RRaise (XCode E29); RRaise (XCode E29); ROk; ROk; ROk; ROk].
 Proof. eexists. split; vm_compute; reflexivity. Qed.
